@@ -104,7 +104,13 @@ func modelID(id string) int {
 	return 99 // "unk"
 }
 
+// stepTimeouts counts the steps of this process that ended in a timeout (a goroutine that neither parked nor finished)
+var stepTimeouts int
+
 func (r *replayer) drift(why string, st cliStep, got string) {
+	if got == "timeout" {
+		stepTimeouts++
+	}
 	if !r.drifted && r.ga != nil {
 		r.ga.hmu.Lock()
 		r.driftSeq = r.ga.seq
@@ -772,7 +778,9 @@ func runSchedule(tw *traceWriter, sch cliSchedule) {
 			if !sch.CloseConn {
 				r.conn.forceClose() // precondition of WithNoConnClose: the connection's Read eventually returns
 			}
-			waitDone("X", 2*time.Second)
+			if !waitDone("X", 5*time.Second) {
+				stuckCloses++ // Close does not come back although everything runs free
+			}
 		}
 		for p := range r.started {
 			if p != "X" {
@@ -806,7 +814,10 @@ func runSchedule(tw *traceWriter, sch cliSchedule) {
 				"res": c.Res, "evs": c.Evs})
 		}
 	}
-	r.emit(map[string]interface{}{"k": "end", "drifted": r.drifted})
+	r.c.mu.Lock()
+	closeBack := r.done["X"]
+	r.c.mu.Unlock()
+	r.emit(map[string]interface{}{"k": "end", "drifted": r.drifted, "close_started": r.started["X"], "close_returned": closeBack})
 	// cleanup outside the recorded behaviour
 	atomic.StoreInt32(&r.logging, 0)
 	if stopDrain == nil {
@@ -848,6 +859,10 @@ func (g *gConn) forceClose() {
 	g.mu.Unlock()
 }
 
+// stuckCloses counts the schedules of this process in which Close did not return after the run was let free; the
+// replay stops early when that keeps happening (every such schedule costs several timeouts)
+var stuckCloses int
+
 // agentTW receives the Agent's history of every replayed schedule (VERIF_AGENT_TRACE_OUT)
 var agentTW *traceWriter
 
@@ -879,6 +894,12 @@ func TestVerifClientReplay(t *testing.T) {
 		tr++
 		if tr <= base {
 			continue // replayed by an earlier process (which a panic inside a library goroutine brought down)
+		}
+		if stuckCloses >= 25 || stepTimeouts >= 60 {
+			// goroutines keep blocking where the model has them running: every such schedule costs seconds, and what
+			// has been recorded is enough for the monitors
+			fmt.Fprintf(os.Stderr, "replay stopped at schedule %d: %d step timeouts, Close did not return in %d schedules\n", tr, stepTimeouts, stuckCloses)
+			break
 		}
 		s.Tr = tr
 		if s.MsgSize == 0 {
